@@ -237,13 +237,14 @@ def _hyp_campaign(mod, sub: Hyp, tier, seed, shard, nshards, part: Part, known_e
     ignored: set = set()
     deadline = _CTX.get("deadline")
     shrink_cap = 250 if tier == "quick" else 4000
+    shrink_seconds = 12.0 if tier == "quick" else 240.0
 
     from collections import deque
 
     history = deque(maxlen=1500)  # last cases judged in this process (for history-dependent failures)
 
     for round_no in range(sub.max_rounds):
-        state = {"after_fail": 0, "failing": set(), "capped": False, "first": None}
+        state = {"after_fail": 0, "failing": set(), "capped": False, "first": None, "t_fail": None}
 
         def counted(case):
             st_ = state
@@ -253,7 +254,7 @@ def _hyp_campaign(mod, sub: Hyp, tier, seed, shard, nshards, part: Part, known_e
             key = None
             if st_["failing"]:
                 st_["after_fail"] += 1
-                if st_["after_fail"] > shrink_cap:
+                if st_["after_fail"] > shrink_cap or time.time() - st_["t_fail"] > shrink_seconds:
                     st_["capped"] = True
             if st_["capped"]:
                 # shrinking budget used up: only the already-known failing cases are re-judged
@@ -272,6 +273,8 @@ def _hyp_campaign(mod, sub: Hyp, tier, seed, shard, nshards, part: Part, known_e
                     part.skipped[f"already-reported:{v.bucket}"] += 1
                     return
                 st_["failing"].add(key or jdump(case))
+                if st_["t_fail"] is None:
+                    st_["t_fail"] = time.time()
                 v.case = case
                 if st_["first"] is None:
                     st_["first"] = {"bucket": v.bucket, "msg": v.msg, "case": case, "history": list(history)}
